@@ -138,6 +138,14 @@ class Scn:
             self.w.distinct_blobs = set()
         self.w.distinct_blobs.add(frozenset((b1.name, b2.name)))
 
+    def share_shard(self, b1, b2, digits=2):
+        """Scenario choice: the (sha256) digests of two different blobs fall into the same first-level
+        shard directory (digits=2) -- the replayer searches generated data with that property."""
+        self.distinct(b1, b2)
+        self.w.assume(z3.UGE(sb._bv(b1.len), sb._bv(2)))
+        self.w.assume(z3.UGE(sb._bv(b2.len), sb._bv(2)))
+        sb.SHARED_PREFIX[frozenset((b1.name, b2.name))] = digits
+
     # -- several users of the cache at once (separate processes: nothing shared but the filesystem)
     def proc(self, tid=0):
         """A further process using the same cache directory: own interpreter, shared filesystem."""
@@ -676,11 +684,31 @@ class Concretiser:
             # assumption).  Pick generated bytes that respect it, so that a replay does not run into a
             # 1-in-256 coincidence the model did not intend.
             seed = b.seed
-            for _try in range(64):
-                data = gen_bytes(seed, n)
-                if not self._prefix_clash(data):
-                    break
-                seed += 1000
+            partner = None
+            for pair, digits in sb.SHARED_PREFIX.items():
+                if b.name in pair:
+                    o = self.scn.blobs.get(next(iter(pair - {b.name})))
+                    if o is not None and id(o) in self.blob_bytes:
+                        partner = (self.blob_bytes[id(o)], digits)
+            if partner is not None:
+                # the scenario wants sha256(data) to share its first `digits` hex digits with the partner's
+                # digest (and to differ right after): search the generator's seeds
+                want = hashlib.sha256(partner[0]).hexdigest()
+                k = partner[1]
+                for _try in range(400000):
+                    data = gen_bytes(seed, n)
+                    h = hashlib.sha256(data).hexdigest()
+                    if h[:k] == want[:k] and h[k:k + 2] != want[k:k + 2] and data != partner[0]:
+                        break
+                    seed += 1000
+                else:
+                    raise Unreplayable("no generated data shares the shard directory")
+            else:
+                for _try in range(64):
+                    data = gen_bytes(seed, n)
+                    if not self._prefix_clash(data):
+                        break
+                    seed += 1000
             self.blob_seed[id(b)] = seed
             self.blob_bytes[id(b)] = data
         return self.blob_bytes[id(b)]
